@@ -202,6 +202,23 @@ def MatrixLog3(R):   # pragma: no cover
             omg = ((1.0 / np.sqrt(2 * (1 + R[0][0])))
                   * np.array([1 + R[0][0], R[1][0], R[2][0]]))
         return VecToso3(np.pi * omg)
+    elif acosinput < 0 and sininput < 1e-4:
+        # close to a half turn the skew part, sin(theta) [n], is tiny and dividing by
+        # sin(theta) amplifies the rounding of R (1e-14 / 1e-9 = 1e-5 in the axis):
+        # take the axis from the symmetric part (1 - cos(theta)) n n^T instead and
+        # only its sign from the skew part
+        theta = np.arctan2(sininput, acosinput)
+        A = 0.5 * (R + (R).T) - acosinput * np.eye(3)
+        k = 0
+        if A[1][1] > A[k][k]:
+            k = 1
+        if A[2][2] > A[k][k]:
+            k = 2
+        omg = A[:, k] / np.sqrt(A[k][k] * (1 - acosinput))
+        if (omg[0] * (R[2][1] - R[1][2]) + omg[1] * (R[0][2] - R[2][0])
+                + omg[2] * (R[1][0] - R[0][1])) < 0:
+            omg = -omg
+        return VecToso3(theta * omg)
     else:
         if not sininput > 0:
             # not a rotation matrix (e.g. NaN entries): fail as the division by
